@@ -1,14 +1,14 @@
 \* generated by mkcfg_searchers.py; families and layouts: MCSearchers.tla
 SPECIFICATION Spec
 CONSTANTS
-  SegSizes <- Segs3
+  SegSizes <- Segs21
   Deleted = {1}
   OneHitEnc = TRUE
   ScoreNone = FALSE
   HeapTakeover = 10
-  MaxCalls = 3
-  NTerms = 2
-  Family = "core2"
+  MaxCalls = 2
+  NTerms = 3
+  Family = "deepq2"
   DropK1 = FALSE
   Queries <- MCQueries
   FixEmptySnapshot = TRUE
